@@ -42,6 +42,21 @@ fn hash_tree(t: &Tree) -> u64 {
     DetHasher::default().hash_one(t)
 }
 
+/// Structurally identical copy in which every node is a fresh allocation and
+/// nothing is shared (the DAG is expanded; callers bound the expansion)
+fn unshared(t: &fidget_core::context::TreeOp) -> std::sync::Arc<fidget_core::context::TreeOp> {
+    use fidget_core::context::TreeOp;
+    use std::sync::Arc;
+    Arc::new(match t {
+        TreeOp::Input(v) => TreeOp::Input(*v),
+        TreeOp::Const(c) => TreeOp::Const(*c),
+        TreeOp::Unary(o, a) => TreeOp::Unary(*o, unshared(a)),
+        TreeOp::Binary(o, a, b) => TreeOp::Binary(*o, unshared(a), unshared(b)),
+        TreeOp::RemapAxes { target, x, y, z } => TreeOp::RemapAxes { target: unshared(target), x: unshared(x), y: unshared(y), z: unshared(z) },
+        TreeOp::RemapAffine { target, mat } => TreeOp::RemapAffine { target: unshared(target), mat: *mat },
+    })
+}
+
 ////////////////////////////////////////////////////////////////////////////////
 // Building through the constructors (same calls as Prog::build, but into an
 // existing context so that the program can be built twice)
@@ -982,6 +997,27 @@ fn semantic_case(case: u64, p: &Prog, rng: &mut Rng, st: &mut Stats, kind: &str)
         if h1 != hash_tree(&t2[i]) {
             st.violation(case, "hash:rebuilt", "two separately built, structurally identical trees hash differently", json!({"program": listing()}));
             return;
+        }
+        // the same tree without any sharing of sub-trees: equal, so it must
+        // hash equally (equality is structural, whatever is shared in memory)
+        if sizes[i] <= 600 {
+            let u: Tree = {
+                let arc = unshared(unsafe { &*t1[i].as_ptr() });
+                // Tree: From<TreeOp> wraps a fresh Arc; rebuild the root node
+                match std::sync::Arc::try_unwrap(arc) {
+                    Ok(op) => Tree::from(op),
+                    Err(_) => unreachable!(),
+                }
+            };
+            st.inc("tree_pairs_shared_vs_unshared");
+            if u != t1[i] {
+                st.violation(case, "tree_eq:unshared_unequal", "a tree and its copy without shared sub-trees compare unequal", json!({"program": listing()}));
+                return;
+            }
+            if hash_tree(&u) != h1 {
+                st.violation(case, "hash:sharing_dependent", "a tree and its structurally equal copy without shared sub-trees hash differently", json!({"program": listing()}));
+                return;
+            }
         }
         let c = t1[i].clone();
         if c != t1[i] || hash_tree(&c) != h1 {
